@@ -1,0 +1,185 @@
+//! Verification hooks (cargo feature `verif`). Thin public wrappers around crate-private
+//! items so an external harness can call them in-process; no logic of their own.
+
+use std::sync::atomic::{AtomicU64, AtomicUsize, Ordering};
+
+use chrono::{NaiveDate, NaiveTime};
+
+use crate::{
+    angle::LimitAngle,
+    geo::{
+        astro::{Astro, TopAstroDay},
+        julian_day::JulianDay,
+    },
+    Coordinates, Gmt, Location, Weather,
+};
+
+use super::{ext_lat, hours, Params, Prayer, PrayerTime};
+
+pub const HOUR_ORDER: [Prayer; 6] = [
+    Prayer::Fajr,
+    Prayer::Shurooq,
+    Prayer::Dhuhr,
+    Prayer::Asr,
+    Prayer::Maghrib,
+    Prayer::Isha,
+];
+
+pub fn cap_angle_360(x: f64) -> f64 {
+    x.cap_angle_360()
+}
+
+pub fn cap_angle_180(x: f64) -> f64 {
+    x.cap_angle_180()
+}
+
+pub fn cap_angle_1(x: f64) -> f64 {
+    x.cap_angle_1()
+}
+
+pub fn cap_angle_between_180(x: f64) -> f64 {
+    x.cap_angle_between_180()
+}
+
+pub fn jd_new(date: NaiveDate, gmt: Gmt) -> f64 {
+    JulianDay::new(date, gmt).value
+}
+
+pub fn jd_sub(date: NaiveDate, gmt: Gmt, days: u64) -> (NaiveDate, f64) {
+    let jd = JulianDay::new(date, gmt).sub(days);
+    (jd.date, jd.value)
+}
+
+pub fn jd_add(date: NaiveDate, gmt: Gmt, days: u64) -> (NaiveDate, f64) {
+    let jd = JulianDay::new(date, gmt).add(days);
+    (jd.date, jd.value)
+}
+
+fn astro_fields(a: &Astro) -> [f64; 5] {
+    [a.ra(), a.dec(), a.sid_time(), a.verif_rsum(), a.dra()]
+}
+
+/// Geocentric ephemeris at a Julian Day: ra, dec, sid_time, rsum, dra.
+pub fn astro(jd: f64) -> [f64; 5] {
+    astro_fields(&Astro::verif_new(jd))
+}
+
+/// Topocentric ephemeris triple (prev, current, next): ra, dec, sid_time, rsum, dra each.
+pub fn top_astro(location: Location, date: NaiveDate) -> [[f64; 5]; 3] {
+    let tad = TopAstroDay::from_jd(JulianDay::new(date, location.gmt), location.coords);
+    [
+        astro_fields(tad.prev_astro()),
+        astro_fields(tad.astro()),
+        astro_fields(tad.next_astro()),
+    ]
+}
+
+/// Same, after substituting coordinates through `new_coords`.
+pub fn top_astro_new_coords(
+    location: Location,
+    date: NaiveDate,
+    coords: Coordinates,
+) -> [[f64; 5]; 3] {
+    let tad = TopAstroDay::from_jd(JulianDay::new(date, location.gmt), location.coords)
+        .new_coords(coords);
+    [
+        astro_fields(tad.prev_astro()),
+        astro_fields(tad.astro()),
+        astro_fields(tad.next_astro()),
+    ]
+}
+
+fn top(location: Location, date: NaiveDate) -> TopAstroDay {
+    TopAstroDay::from_jd(JulianDay::new(date, location.gmt), location.coords)
+}
+
+/// The six conventional hours in `HOUR_ORDER`.
+pub fn raw_hours(
+    params: &Params,
+    location: Location,
+    date: NaiveDate,
+    weather: Weather,
+) -> [Result<f64, ()>; 6] {
+    let h = hours::get_hours(params, &top(location, date), weather);
+    HOUR_ORDER.map(|p| h[&p])
+}
+
+/// The six hours after the extreme-latitude policy and the interval pass, in `HOUR_ORDER`.
+pub fn adj_hours(
+    params: &Params,
+    location: Location,
+    date: NaiveDate,
+    weather: Weather,
+) -> [Result<(f64, bool), ()>; 6] {
+    let h = super::get_hours_adj_ext(params, &top(location, date), weather);
+    HOUR_ORDER.map(|p| h[&p].map(|x| (x.value, x.extreme)))
+}
+
+/// The policy layer applied to caller-supplied conventional hours.
+pub fn adj_given(
+    params: &Params,
+    given: [Result<f64, ()>; 6],
+    location: Location,
+    date: NaiveDate,
+    weather: Weather,
+) -> [Result<(f64, bool), ()>; 6] {
+    let map = HOUR_ORDER.iter().copied().zip(given).collect();
+    let h = ext_lat::adj_for_ext_lat(params, map, &top(location, date), weather);
+    HOUR_ORDER.map(|p| h[&p].map(|x| (x.value, x.extreme)))
+}
+
+pub fn hour_to_time(params: &Params, prayer: Prayer, hour: f64) -> NaiveTime {
+    hours::hour_to_time(params, prayer, hour)
+}
+
+pub fn imsaak(
+    params: &Params,
+    location: Location,
+    date: NaiveDate,
+    weather: Weather,
+) -> Result<PrayerTime, ()> {
+    super::get_imsaak(params, &top(location, date), weather)
+}
+
+// Parallelism override and schedule perturbation for `prayer_times_dt_rng_block`.
+
+static PLL_OVERRIDE: AtomicUsize = AtomicUsize::new(0);
+static PERTURB_SEED: AtomicU64 = AtomicU64::new(0);
+static PERTURB_CTR: AtomicU64 = AtomicU64::new(0);
+
+/// 0 = use the detected parallelism.
+pub fn set_parallelism(n: usize) {
+    PLL_OVERRIDE.store(n, Ordering::SeqCst);
+}
+
+/// 0 = no perturbation.
+pub fn set_perturb_seed(seed: u64) {
+    PERTURB_SEED.store(seed, Ordering::SeqCst);
+    PERTURB_CTR.store(0, Ordering::SeqCst);
+}
+
+pub(crate) fn override_pll(detected: usize) -> usize {
+    match PLL_OVERRIDE.load(Ordering::SeqCst) {
+        0 => detected,
+        n => n,
+    }
+}
+
+pub(crate) fn perturb(point: u64) {
+    let seed = PERTURB_SEED.load(Ordering::Relaxed);
+    if seed == 0 {
+        return;
+    }
+    let n = PERTURB_CTR.fetch_add(1, Ordering::Relaxed);
+    let mut z = seed
+        .wrapping_add(point.wrapping_mul(0x9E37_79B9_7F4A_7C15))
+        .wrapping_add(n.wrapping_mul(0xBF58_476D_1CE4_E5B9));
+    z = (z ^ (z >> 30)).wrapping_mul(0xBF58_476D_1CE4_E5B9);
+    z = (z ^ (z >> 27)).wrapping_mul(0x94D0_49BB_1331_11EB);
+    z ^= z >> 31;
+    match z % 4 {
+        0 => {}
+        1 => std::thread::yield_now(),
+        _ => std::thread::sleep(std::time::Duration::from_micros((z >> 8) % 300)),
+    }
+}
